@@ -188,7 +188,9 @@ impl PrometheusBuilder {
     {
         use std::str::FromStr;
 
+        // Accept both subnets in CIDR notation and plain IP addresses, which are treated as a single-host subnet.
         let address = IpNet::from_str(address.as_ref())
+            .or_else(|e| IpAddr::from_str(address.as_ref()).map(IpNet::from).map_err(|_| e))
             .map_err(|e| BuildError::InvalidAllowlistAddress(e.to_string()))?;
         self.allowed_addresses.get_or_insert(vec![]).push(address);
 
